@@ -227,6 +227,55 @@ impl PPRF for GGM {
   }
 }
 
+// Read-only accessors used by the external verification harness in /verif.
+// They expose the retained tree nodes so that forward security can be
+// judged on the real key material. Not part of the public API.
+#[cfg(feature = "verif-hooks")]
+impl GGM {
+  /// For each retained node: (prefix bits, inputs it covers, seed).
+  pub fn verif_retained_nodes(&self) -> Vec<(Vec<bool>, Vec<u8>, Vec<u8>)> {
+    self
+      .key
+      .prefixes
+      .iter()
+      .map(|(pfx, seed)| {
+        let bits: Vec<bool> = pfx.bits.iter().map(|b| *b).collect();
+        let covered: Vec<u8> = (0..=255u8)
+          .filter(|x| {
+            let bv = bvcast_u8_to_usize(&BitVec::<_, Lsb0>::from_slice(&[*x]));
+            bv.starts_with(&pfx.bits)
+          })
+          .collect();
+        (bits, covered, seed.clone())
+      })
+      .collect()
+  }
+
+  /// The list of inputs recorded as punctured (as bit strings).
+  pub fn verif_punctured(&self) -> Vec<Vec<bool>> {
+    self
+      .key
+      .punctured
+      .iter()
+      .map(|p| p.bits.iter().map(|b| *b).collect())
+      .collect()
+  }
+
+  /// Seed of the tree node at `path` (bit 0 first), derived from the retained
+  /// node covering it, if any. Total on a fresh key for non-empty paths.
+  pub fn verif_node_seed(&self, path: &[bool]) -> Option<Vec<u8>> {
+    let mut bv: BitVec = BitVec::with_capacity(path.len());
+    for b in path {
+      bv.push(*b);
+    }
+    let pfx = self.key.find_prefix(&bv).ok()?;
+    let (_, right) = bv.split_at(pfx.0.bits.len());
+    let mut out = vec![0u8; 32];
+    self.bit_eval(&right.to_bitvec(), &pfx.1, &mut out);
+    Some(out)
+  }
+}
+
 fn sample_secret() -> Vec<u8> {
   let mut out = vec![0u8; 32];
   OsRng.fill(out.as_mut_slice());
